@@ -155,6 +155,11 @@ func runProperty(P *Prog, id string, pd *PropDef, opts solveOpts) *checkResult {
 					res.undecided = append(res.undecided, fmt.Sprintf("%s: call-site assertion at %s does not bind", r.Short, site))
 				}
 			}
+			for site := range r.fx.fc.GhostSets {
+				if !r.fx.boundAsserts[r.Key+"@gs:"+site] {
+					res.undecided = append(res.undecided, fmt.Sprintf("%s: ghost assignment at %s does not bind", r.Short, site))
+				}
+			}
 			for n := range r.fx.fc.Loops {
 				if !r.fx.hasLoop(n) {
 					res.undecided = append(res.undecided, fmt.Sprintf("%s: loop %d does not bind", r.Short, n))
